@@ -37,6 +37,15 @@ SourceOpts == { <<p>> : p \in SmallPipes } \cup { <<p, q>> : p \in SmallPipes, q
 Nested == { [name |-> "from_list", params |-> ps, sources |-> ss] : ps \in {<<>>, << <<"a", <<V1>>>> >>}, ss \in SourceOpts }
 Asts == { <<l>> : l \in Leaves } \cup { <<l, m>> : l \in Leaves, m \in SmallLeaves }
         \cup (IF Depth >= 2 THEN { <<n>> : n \in Nested } \cup { <<n, m>> : n \in Nested, m \in SmallLeaves } ELSE {})
+        \* depth 3: a source list inside a source list (alone, next to a plain pipeline, and followed by a transform)
+        \cup (IF Depth >= 3
+              THEN LET Inner == { [name |-> "from_list", params |-> <<>>, sources |-> <<p>>] : p \in SmallPipes }
+                       Outer == { [name |-> "from_list", params |-> ps, sources |-> ss] :
+                                     ps \in {<<>>, << <<"a", <<V1>>>> >>},
+                                     ss \in { << <<n>> >> : n \in Inner } \cup { << <<n>>, q >> : n \in Inner, q \in SmallPipes }
+                                              \cup { << <<n, m>> >> : n \in Inner, m \in SmallLeaves } }
+                   IN { <<o>> : o \in Outer } \cup { <<o, m>> : o \in Outer, m \in SmallLeaves }
+              ELSE {})
 
 Choices == { [ws |-> w, gap |-> g, style |-> s] : w \in WsOpts, g \in {" ", "\n\t"}, s \in Styles }
 
